@@ -1905,8 +1905,11 @@ impl XmlDocumentTypeDeclaration {
                             let entity = XmlEntity::node(v, declaration_id, context);
                             declaration.borrow_mut().push_child(entity);
                         }
-                        parser::DeclarationEntity::ParameterEntity(_) => {
-                            unimplemented!("Not support parameter entity reference.")
+                        parser::DeclarationEntity::ParameterEntity(v) => {
+                            return Err(error::Error::InvalidData(format!(
+                                "parameter entity `{}` is not supported",
+                                v.name
+                            )));
                         }
                     },
                     parser::DeclarationMarkup::Notation(v) => {
@@ -1918,8 +1921,11 @@ impl XmlDocumentTypeDeclaration {
                         declaration.borrow_mut().push_child(pi);
                     }
                 },
-                parser::InternalSubset::ParameterEntityReference(_) => {
-                    unimplemented!("Not support parameter entity reference.")
+                parser::InternalSubset::ParameterEntityReference(v) => {
+                    return Err(error::Error::InvalidData(format!(
+                        "parameter entity reference `%{};` is not supported",
+                        v
+                    )));
                 }
                 parser::InternalSubset::Whitespace(_) => {
                     // drop
@@ -4225,8 +4231,11 @@ fn attr_value_from_name(name: &str, context: &Context) -> error::Result<String> 
                 let v = attr_value_from_name(v, context)?;
                 parsed.push_str(v.as_str());
             }
-            XmlEntityValue::Parameter(_) => {
-                unimplemented!("Not support parameter entity reference.")
+            XmlEntityValue::Parameter(v) => {
+                return Err(error::Error::InvalidData(format!(
+                    "parameter entity reference `%{};` is not supported",
+                    v
+                )));
             }
             XmlEntityValue::Text(v) => parsed.push_str(normalize_ws(v).as_str()),
         }
